@@ -292,6 +292,28 @@ def run_cli_part(desc, ctx):
             if not np.allclose(lo.get_ydata(), wo, atol=1e-12) or not np.allclose(lf.get_ydata(), wf, atol=1e-12):
                 ctx.violation("cli-freq|%s" % b, "-m freq -b %s -r %s: obs %s fcst %s, documented %s / %s"
                               % (b, ts, list(lo.get_ydata()), list(lf.get_ydata()), wo, wf), {"bin": b, "ts": ts})
+        # conditional axes: -m <field> -x obs|fcst -agg count = number of pairs whose AXIS variable lies in each event
+        for mfield in ("obs", "fcst"):
+            for xfield in ("obs", "fcst"):
+                o = runner.run_cli([path, "-m", mfield, "-x", xfield, "-agg", "count", "-r", ",".join(gen.fnum(t) for t in ts), "-b", b,
+                                    "-type", "csv"])
+                if o.status != "ok":
+                    ctx.violation("cli-failed|cond", str(o.brief()), {"bin": b})
+                    continue
+                h, rows = runner.parse_csv(o.stdout)
+                got = [r[-1] for r in rows]
+                j = 0 if xfield == "obs" else 1
+                if mfield == xfield:
+                    # only this field is requested: every case where IT is present counts (the other may be missing)
+                    pop = [c_[xfield] for c_ in inp["cells"].values() if c_[xfield] is not None]
+                else:
+                    pop = [pr[j] for pr in pairs]
+                want_c = [sum(1 for v_ in pop if expected(b, ts, i, v_)) for i in range(ne)]
+                ctx.count("cli_rows_checked", ne)
+                ctx.case("%s|inc3|equal|cli-cond-%s-on-%s" % (b, mfield, xfield), True)
+                if len(got) != ne or any(not ((w == 0 and g.lower() in ("nan", "0")) or g == "%g" % w) for g, w in zip(got, want_c)):
+                    ctx.violation("cli-conditional-count|%s" % b, "-m %s -x %s -agg count -r %s -b %s: %s, pairs whose %s lies in each event: %s"
+                                  % (mfield, xfield, ts, b, got, xfield, want_c), {"bin": b, "ts": ts})
         # -hist on the obs field: percentage of obs in each event
         o = runner.run_cli([path, "-m", "obs", "-hist", "-r", ",".join(gen.fnum(t) for t in ts), "-b", b], keep_fig=True)
         if o.status == "ok":
